@@ -2,12 +2,21 @@
 (* Viewers and attribute pickers mirror the collection (property C18).
 
    Part 1 - layers.  Abstract state: the datasets of the collection, the live subset groups,
-   and the set of datasets GIVEN to the viewer.  Required after every step (when no hub
-   delay block is open):
-       Layers = {d : d given and in the collection} + {<<d, g>> : such d, g a live group}
-   each exactly once; the viewer's layer list and its state's layer list agree; a dataset
-   that leaves the collection is forgotten by the viewer (re-appending it does not bring
-   its layers back); saving and restoring the viewer is the identity.
+   the stand-alone subsets (Data.new_subset, not in a group) and the set `layers` of layers
+   the viewer must hold: <<d, 0>> the layer of dataset d, <<d, g>> (g = 1..MaxGroups) the layer
+   of d's subset in group g, <<d, 9>> the layer of d's stand-alone subset.
+       add_data(d)       adds d's layer and one layer for each of d's current subsets
+       a new subset      of a dataset whose own layer is shown gets a layer
+       remove_data(d)    removes every layer of d - also when only subset layers of d are left
+       remove_layer(k)   (the user deletes one layer) removes exactly that layer
+       add_subset(k)     adds exactly that subset's layer
+       a dataset that leaves the collection, a removed group, a deleted subset: all their
+       layers disappear (re-appending the dataset does not bring layers back)
+   Required after every step (when no hub delay block is open): the viewer holds exactly
+   `layers`, each once; the viewer's layer list and its state's layer list agree; saving and
+   restoring the viewer is the identity; every picker of the viewer's state selects one of
+   its choices (or nothing when there is none) and offers only attributes of datasets that
+   are in the collection.
 
    Part 2 - attribute pickers (ComponentIDComboHelper).  Abstract state: the ordered
    attributes of each dataset with their kind, the datasets given to the picker, the kind
@@ -18,30 +27,50 @@
    (which one is selected after the previous choice disappeared is not constrained).      *)
 EXTENDS Naturals, Sequences, FiniteSets, TLC
 
-CONSTANTS Data, MaxGroups, MaxDelay, AttrMenu, Filters
+CONSTANTS Data, MaxGroups, MaxDelay, MaxLayerOps, AttrMenu, Filters
 
-VARIABLES coll, groups, ngrp, given, delay,       \* part 1
+VARIABLES coll, groups, ngrp, alone, layers, delay, nlay,      \* part 1
           attrs, pdata, filt, sel,                  \* part 2
           act
-v1 == <<coll, groups, ngrp, given, delay>>
+v1 == <<coll, groups, ngrp, alone, layers, delay, nlay>>
 v2 == <<attrs, pdata, filt, sel>>
 vars == <<v1, v2, act>>
 
 A(op, d, x) == [op |-> op, d |-> d, x |-> x]
 
 (* ---- part 1 ---- *)
-ExpLayers == {<<d, 0>> : d \in given \cap coll} \cup {<<d, g>> : d \in given \cap coll, g \in groups}
+SubsOf(d) == {<<d, g>> : g \in groups} \cup ({<<d, 9>>} \cap alone)
+Shown(d) == <<d, 0>> \in layers                       \* the dataset's own layer is in the viewer
+Of(d) == {k \in layers : k[1] = d}
+U1 == UNCHANGED v2
 
-Append_(d) == d \notin coll /\ coll' = coll \cup {d} /\ act' = A("Append", d, 0) /\ UNCHANGED <<groups, ngrp, given, delay, v2>>
-Remove_(d) == d \in coll /\ coll' = coll \ {d} /\ given' = given \ {d} /\ act' = A("Remove", d, 0) /\ UNCHANGED <<groups, ngrp, delay, v2>>
-NewGroup == ngrp < MaxGroups /\ ngrp' = ngrp + 1 /\ groups' = groups \cup {ngrp + 1} /\ act' = A("NewGroup", "-", ngrp + 1)
-            /\ UNCHANGED <<coll, given, delay, v2>>
-RemoveGroup(g) == g \in groups /\ groups' = groups \ {g} /\ act' = A("RemoveGroup", "-", g) /\ UNCHANGED <<coll, ngrp, given, delay, v2>>
-AddData(d) == delay = 0 /\ d \in coll /\ d \notin given /\ given' = given \cup {d} /\ act' = A("ViewerAddData", d, 0) /\ UNCHANGED <<coll, groups, ngrp, delay, v2>>
-RemoveData(d) == delay = 0 /\ d \in given /\ given' = given \ {d} /\ act' = A("ViewerRemoveData", d, 0) /\ UNCHANGED <<coll, groups, ngrp, delay, v2>>
-SaveRestore == delay = 0 /\ act' = A("SaveRestoreViewer", "-", 0) /\ UNCHANGED <<v1, v2>>
-DelayEnter == delay < MaxDelay /\ delay' = delay + 1 /\ act' = A("DelayEnter", "-", 0) /\ UNCHANGED <<coll, groups, ngrp, given, v2>>
-DelayExit == delay > 0 /\ delay' = delay - 1 /\ act' = A("DelayExit", "-", 0) /\ UNCHANGED <<coll, groups, ngrp, given, v2>>
+Append_(d) == d \notin coll /\ coll' = coll \cup {d} /\ act' = A("Append", d, 0) /\ UNCHANGED <<groups, ngrp, alone, layers, delay, nlay>> /\ U1
+Remove_(d) == d \in coll /\ coll' = coll \ {d} /\ layers' = layers \ Of(d) /\ act' = A("Remove", d, 0)
+              /\ UNCHANGED <<groups, ngrp, alone, delay, nlay>> /\ U1
+NewGroup == /\ ngrp < MaxGroups /\ ngrp' = ngrp + 1 /\ groups' = groups \cup {ngrp + 1}
+            /\ layers' = layers \cup {<<d, ngrp + 1>> : d \in {x \in coll : Shown(x)}}
+            /\ act' = A("NewGroup", "-", ngrp + 1) /\ UNCHANGED <<coll, alone, delay, nlay>> /\ U1
+RemoveGroup(g) == g \in groups /\ groups' = groups \ {g} /\ layers' = {k \in layers : k[2] # g}
+                  /\ act' = A("RemoveGroup", "-", g) /\ UNCHANGED <<coll, ngrp, alone, delay, nlay>> /\ U1
+NewAlone(d) == /\ d \in coll /\ <<d, 9>> \notin alone /\ alone' = alone \cup {<<d, 9>>}
+               /\ layers' = IF Shown(d) THEN layers \cup {<<d, 9>>} ELSE layers
+               /\ act' = A("NewAlone", d, 9) /\ UNCHANGED <<coll, groups, ngrp, delay, nlay>> /\ U1
+DeleteAlone(d) == /\ d \in coll /\ <<d, 9>> \in alone /\ alone' = alone \ {<<d, 9>>} /\ layers' = layers \ {<<d, 9>>}
+                  /\ act' = A("DeleteAlone", d, 9) /\ UNCHANGED <<coll, groups, ngrp, delay, nlay>> /\ U1
+AddData(d) == /\ delay = 0 /\ d \in coll /\ ~Shown(d) /\ layers' = layers \cup {<<d, 0>>} \cup SubsOf(d)
+              /\ act' = A("ViewerAddData", d, 0) /\ UNCHANGED <<coll, groups, ngrp, alone, delay, nlay>> /\ U1
+RemoveData(d) == /\ delay = 0 /\ Of(d) # {} /\ layers' = layers \ Of(d)
+                 /\ act' = A("ViewerRemoveData", d, 0) /\ UNCHANGED <<coll, groups, ngrp, alone, delay, nlay>> /\ U1
+RemoveLayer(k) == /\ delay = 0 /\ k \in layers /\ nlay < MaxLayerOps /\ nlay' = nlay + 1 /\ layers' = layers \ {k}
+                  /\ act' = A("RemoveLayer", k[1], k[2]) /\ UNCHANGED <<coll, groups, ngrp, alone, delay>> /\ U1
+AddSubsetLayer(k) == /\ delay = 0 /\ k[1] \in coll /\ k \in SubsOf(k[1]) /\ k \notin layers /\ nlay < MaxLayerOps /\ nlay' = nlay + 1
+                     /\ layers' = layers \cup {k}
+                     /\ act' = A("AddSubsetLayer", k[1], k[2]) /\ UNCHANGED <<coll, groups, ngrp, alone, delay>> /\ U1
+(* a session restore deliberately turns stand-alone subsets into subset groups (coerce_subset_groups): sessions with
+   stand-alone subsets are outside this model's SaveRestore *)
+SaveRestore == delay = 0 /\ alone = {} /\ act' = A("SaveRestoreViewer", "-", 0) /\ UNCHANGED <<v1, v2>>
+DelayEnter == delay < MaxDelay /\ delay' = delay + 1 /\ act' = A("DelayEnter", "-", 0) /\ UNCHANGED <<coll, groups, ngrp, alone, layers, nlay>> /\ U1
+DelayExit == delay > 0 /\ delay' = delay - 1 /\ act' = A("DelayExit", "-", 0) /\ UNCHANGED <<coll, groups, ngrp, alone, layers, nlay>> /\ U1
 
 (* ---- part 2 ---- *)
 Kinds == {"num", "cat", "derived"}
@@ -74,7 +103,7 @@ SetFilter(f) == filt' = f /\ f # filt /\ UNCHANGED <<attrs, pdata>> /\ Fix /\ ac
 Select(i) == i \in DOMAIN Choices /\ sel' = Choices[i] /\ UNCHANGED <<attrs, pdata, filt>> /\ act' = A("Select", "-", i) /\ UNCHANGED v1
 
 Init ==
-    /\ coll = {} /\ groups = {} /\ ngrp = 0 /\ given = {} /\ delay = 0
+    /\ coll = {} /\ groups = {} /\ ngrp = 0 /\ alone = {} /\ layers = {} /\ delay = 0 /\ nlay = 0
     /\ attrs = [d \in Data |-> <<[n |-> "a", k |-> "num"]>>]
     /\ pdata = <<>>
     /\ filt = [numeric |-> TRUE, categorical |-> TRUE, derived |-> TRUE]
@@ -82,7 +111,8 @@ Init ==
     /\ act = A("Init", "-", 0)
 
 Next1 ==
-    \/ \E d \in Data : Append_(d) \/ Remove_(d) \/ AddData(d) \/ RemoveData(d)
+    \/ \E d \in Data : Append_(d) \/ Remove_(d) \/ AddData(d) \/ RemoveData(d) \/ NewAlone(d) \/ DeleteAlone(d)
+    \/ \E d \in Data, x \in 0..9 : RemoveLayer(<<d, x>>) \/ AddSubsetLayer(<<d, x>>)
     \/ NewGroup
     \/ \E g \in 1..MaxGroups : RemoveGroup(g)
     \/ SaveRestore \/ DelayEnter \/ DelayExit
@@ -95,6 +125,6 @@ Next2 ==
 Spec1 == Init /\ [][Next1]_vars
 Spec2 == Init /\ [][Next2]_vars
 
-Inv_GivenInColl == given \subseteq coll
+Inv_LayersInColl == \A k \in layers : k[1] \in coll /\ (k[2] = 0 \/ k \in SubsOf(k[1]))
 Inv_SelectionIsAChoice == (sel.d # "?") => SelOK
 =============================================================================
